@@ -73,11 +73,15 @@ class Builder:
         self.cell([(v[3], v[2], v[1], v[0]), (v[7], v[6], v[5], v[4]), (v[1], v[2], v[6], v[7]),
                    (v[4], v[5], v[3], v[0]), (v[1], v[7], v[4], v[0]), (v[2], v[3], v[5], v[6])])
 
-NICE = [0.0, 1.0, -1.0, 0.5, 2.5, -3.25, 100.0, 1e-3, 123456.0, 1.5e10, -7.0, 0.1, 3.14159, 1e-300, 1e300, 65536.0]
+# Numbers in generated files are either small (< 3000) or so large that a container of that many 4-byte elements exceeds
+# the 4 GB allocation limit of the model (o_alloc) and of the RLIMIT_AS runs: a shifted parse (a dropped line, a wrong
+# count) can turn any value into a count / valence / size, and the mid range would only measure how fast 10^8 iterations are.
+NICE = [0.0, 1.0, -1.0, 0.5, 2.5, -3.25, 100.0, 1e-3, 1234.5, 1.5e10, -7.0, 0.1, 3.14159, 1e-300, 1e300, 2048.0]
+BIG = 1 << 31
 
 def rand_float(rng):
     if rng.chance(1, 2): return rng.pick(NICE)
-    return (rng.below(2000001) - 1000000) / rng.pick([1.0, 8.0, 1000.0, 3.0])
+    return (rng.below(4001) - 2000) / rng.pick([1.0, 8.0, 1000.0, 3.0])
 
 def rand_pos(rng, d):
     for v in range(d.nv):
@@ -86,12 +90,13 @@ def rand_pos(rng, d):
 
 def rand_value(rng, ty, d, safe=True):
     """a python value of the ASCII type ty.  safe: values inside the format's limits (no whitespace chars, finite floats)"""
-    i32 = [0, 1, -1, 2147483647, -2147483648, 7, 255, 256, 65535, 65536]
-    if ty == "int": return rng.pick(i32) if rng.chance(1, 2) else rng.below(1 << 32) - (1 << 31)
-    if ty == "uint": return rng.pick([0, 1, 4294967295, 2147483648, 9]) if rng.chance(1, 2) else rng.below(1 << 32)
-    if ty == "short": return rng.pick([0, 1, -1, 32767, -32768]) if rng.chance(1, 2) else rng.below(1 << 16) - (1 << 15)
-    if ty == "long": return rng.pick([0, -1, (1 << 63) - 1, -(1 << 63), 1 << 40]) if rng.chance(1, 2) else rng.next() - (1 << 63)
-    if ty == "ulong": return rng.pick([0, 1, (1 << 64) - 1, 1 << 63]) if rng.chance(1, 2) else rng.next()
+    i32 = [0, 1, -1, 2147483647, -2147483648, 7, 255, 256, 2047]
+    def small(): return rng.below(4001) - 2000
+    if ty == "int": return rng.pick(i32) if rng.chance(1, 2) else small() if rng.chance(1, 2) else rng.pick([1, -1]) * (BIG - 1 - rng.below(1 << 20))
+    if ty == "uint": return rng.pick([0, 1, 4294967295, 2147483648, 9]) if rng.chance(1, 2) else abs(small()) if rng.chance(1, 2) else BIG + rng.below(BIG)
+    if ty == "short": return rng.pick([0, 1, -1, 32767, -32768]) if rng.chance(1, 2) else small()
+    if ty == "long": return rng.pick([0, -1, (1 << 63) - 1, -(1 << 63), 1 << 40]) if rng.chance(1, 2) else small() if rng.chance(1, 2) else rng.pick([1, -1]) * (BIG + rng.below(1 << 62))
+    if ty == "ulong": return rng.pick([0, 1, (1 << 64) - 1, 1 << 63]) if rng.chance(1, 2) else abs(small()) if rng.chance(1, 2) else BIG + rng.below(1 << 63)
     if ty in ("char", "uchar"):
         while True:
             c = rng.pick([65, 48, 122, 33, 126, 35, 34, 58]) if rng.chance(1, 2) else rng.below(256)
@@ -169,9 +174,10 @@ def base_meshes(rng, thorough):
     d = Desc("prism"); b = Builder(d); v = b.v(8)
     b.cell([(v[0], v[2], v[1]), (v[3], v[4], v[5]), (v[0], v[1], v[4], v[3]), (v[1], v[2], v[5], v[4]), (v[2], v[0], v[3], v[5])])
     b.hf((v[5], v[6], v[7])); out.append(d)
-    # degenerate valences: 1-gon, 2-gon, a face without halfedges, a cell with one halfface, a cell without halffaces
+    # degenerate valences: 1-gons, 2-gon, a cell with one halfface, a cell without halffaces (a face without halfedges is
+    # outside the kernel's contract and refused by the reader: corpus G)
     d = Desc("degenerate"); b = Builder(d); v = b.v(3)
-    e0 = b.he(v[0], v[1]); d.E.append((1, 1)); d.F.append([2]); d.F.append([e0, e0 + 1]); d.F.append([]); d.C.append([0]); d.C.append([]); d.C.append([2, 3, 5]); out.append(d)
+    e0 = b.he(v[0], v[1]); d.E.append((1, 1)); d.F.append([2]); d.F.append([e0, e0 + 1]); d.F.append([e0]); d.C.append([0]); d.C.append([]); d.C.append([2, 3, 5]); out.append(d)
     # non-manifold: three cells around one face pair, duplicate edges, a cell using both halffaces of a face
     d = Desc("nonmanifold"); b = Builder(d); v = b.v(6)
     b.tet(v[0], v[1], v[2], v[3]); b.tet(v[0], v[2], v[1], v[4]); d.C.append([0, 1, 2, 4]); d.E.append((0, 1)); d.C.append(list(d.C[0])); out.append(d)
@@ -315,6 +321,7 @@ VALUE_MUT = [b"abc", b"", b"-", b"+", b"1e999", b"99999999999999999999", b"-9999
 class Cases:
     def __init__(self): self.items = []     # (id, header fields dict, bytes, tags)
     def add(self, cid, data, mesh="poly", check=1, bu=1, api="stream", aslimit=None, tags=()):
+        if not cid.startswith("corpus:"): cid = "%s#%d" % (cid, len(self.items))      # ids are unique
         self.items.append((cid, dict(mesh=mesh, check=check, bu=bu, api=api, aslimit=aslimit), bytes(data), tuple(tags)))
         return cid
     def text(self, only=None):
@@ -362,6 +369,7 @@ def mutate(rng, cases, d, prefix, thorough):
     # counts
     for i in idx["cnt"]:
         n = int(L[i].toks[0]); tag = L[i].tag[4:]
+        if n > 2000: continue
         muts = [str(n + 1).encode(), str(max(n - 1, 0)).encode(), str(n + 5).encode(), str(2 * n + 3).encode()] + COUNT_MUT[:4] + (COUNT_MUT[4:] if thorough else [rng.pick(COUNT_MUT[4:9])])
         for m in muts:
             if m in (b"4294967296", b"18446744073709551615", b"18446744073709551616", b"99999999999999999999999"):
@@ -471,6 +479,11 @@ def corpus(cases):
     add("Fa_vec3d_short", T + b'VProp vec3d "m"\n1 2 3\n4 5\n', "true"); add("Fa_vec3i_short", T + b'VProp vec3i "m"\n1 2 3\n4 5\n', "true")
     add("Fb_vector_double_short", T + b'VProp vector_double "m"\n1\n2.5\n', "true"); add("Fb_map_short", T + b'VProp map_heh_int "m"\n1\n2\n3\n', "true")
     add("Fb_bool_short", T + b'VProp bool "b"\n1\n', "true"); add("Fb_vvhfh_short", T + b'VProp vector_vector_hfh "m"\n2\n1\n5\n', "true")
+    add("G_empty_face", T.replace(b"3 0 8 7\n", b"0\n"), "false", check=0); add("G_empty_face_min", b"OVM ASCII\nVertices\n0\nEdges\n0\nFaces\n1\n0\nPolyhedra\n0\n", "false", check=0)
+    add("G_nonnumeric_valence", T.replace(b"3 0 8 7\n", b"x 0 8 7\n"), "false", check=0, api="path"); add("G_empty_face_nobu", T.replace(b"3 0 8 7\n", b"0\n"), "false", check=0, bu=0)
+    add("G_empty_cell", T.replace(b"4 1 2 4 6\n", b"0\n"), "true", check=0)
+    add("H_map_2e64", T + b'MProp map_heh_int "m"\n18446744073709551615\n', "true"); add("H_map_2e31", T + b'MProp map_heh_int "m"\n2147483648\n1 2\n', "true")
+    add("H_map_cut_pair", T + b'MProp map_heh_int "m"\n3\n3\n7\n1\n', "true")
     add("F_ncells_eof", b"OVM ASCII\nVertices\n0\nEdges\n0\nFaces\n0\nPolyhedra\n", "true")
     add("F_ncells_eof_tet", b"OVM ASCII\nVertices\n0\nEdges\n0\nFaces\n0\nPolyhedra\n", "true", mesh="tet", check=0, bu=0, api="path")
     return E
